@@ -184,4 +184,42 @@ def step {T : WalT} (e : Ent T) : Op T → Ent T × Option (Out T)
 
 def run {T : WalT} (e : Ent T) (ops : List (Op T)) : Ent T := ops.foldl (fun s o => (step s o).1) e
 
+/-! ### specification-level notions (used by `Props/C06.lean`) -/
+
+/-- `cur` is reached from `v` by applying the stored change sets `wal-<v.revision>`,
+`wal-<v.revision+1>`, … in order. -/
+inductive Reaches {T : WalT} (kv : Scope T) : WVer T → WVer T → Prop where
+  | refl (v : WVer T) : Reaches kv v v
+  | step {v v' cur : WVer T} {s : WSet T} :
+      kv.getWal v.revision = some s → applySet v s = some v' → Reaches kv v' cur → Reaches kv v cur
+
+/-- The invariant of an existing WAL entity whose current value is `cur`: the snapshot and
+every cache entry lead to `cur` through the stored change sets, and there is no change set
+at or above `cur`'s revision. -/
+structure WInv {T : WalT} (e : Ent T) (cur : WVer T) : Prop where
+  snap : ∃ s, e.kv.snapshot = some s ∧ Reaches e.kv s cur
+  above : ∀ k, cur.revision ≤ k → e.kv.getWal k = none
+  cache : ∀ i c, alookup e.cache i = some c → Reaches e.kv c cur
+
+/-- The entity does not exist (and nobody caches it). -/
+def Absent {T : WalT} (e : Ent T) : Prop :=
+  e.kv.snapshot = none ∧ (∀ k, e.kv.getWal k = none) ∧ ∀ i, alookup e.cache i = none
+
+/-- Every *other* store object that caches the entity has seen all change sets.
+`update_snapshot` deletes every `wal-N` key, so a store object with an older cache could
+never catch up afterwards.  In krill the snapshot is taken by a throw-away store object while
+the one long-lived store object – the only writer – is always up to date. -/
+def othersCurrent {T : WalT} (e : Ent T) (i : Nat) : Prop :=
+  ∀ j c, j ≠ i → alookup e.cache j = some c → e.kv.getWal c.revision = none
+
+/-- Histories in which `add` is only used for an entity that does not exist (krill:
+`if !store.has(..)`) and snapshots are taken only when the other store objects are current. -/
+def SafeRun {T : WalT} (e : Ent T) : List (Op T) → Prop
+  | [] => True
+  | op :: rest =>
+    (match op with
+      | .snap i _ => othersCurrent e i
+      | .add _ _ _ => Absent e
+      | _ => True) ∧ SafeRun (step e op).1 rest
+
 end KM.ES.Wal
